@@ -70,6 +70,7 @@ type env struct {
 	scans    map[string]*simrt.TagScanner
 	// initLookups: holder -> "@init:<target id>" -> what the lookup from inside Init returned
 	initLookups map[string]map[string][]string
+	loaderHands map[string]*simrt.Handle
 }
 
 // ptrKey identifies an object by type and address (distinct zero-size components may share
@@ -364,6 +365,7 @@ func (e *env) buildLoader(s *sdl.Source) configure.Loader {
 		return loader.NewArgsLoader(argv)
 	case "sim":
 		h := &simrt.Handle{ID: s.ID, C: e.ctx}
+		e.loaderHands[s.ID] = h
 		if s.Fault == "error" {
 			e.ctx.Armed["load:"+s.ID+"#*"] = true
 		}
@@ -443,7 +445,7 @@ func Run(t *testing.T, bind *Binding, spec *RunSpec) (obs *model.Obs) {
 		ctx.Armed[f] = true
 	}
 	e := &env{spec: spec, bind: bind, ctx: ctx, prog: spec.Prog, objs: map[string]any{}, ptrID: map[ptrKey]string{},
-		subs: map[string]any{}, freshN: map[string]int{}, lateDone: map[string]bool{}, hands: map[string]*simrt.Handle{}, obs: obs, names: map[string]string{}, scans: map[string]*simrt.TagScanner{}, initLookups: map[string]map[string][]string{}}
+		subs: map[string]any{}, freshN: map[string]int{}, lateDone: map[string]bool{}, hands: map[string]*simrt.Handle{}, obs: obs, names: map[string]string{}, scans: map[string]*simrt.TagScanner{}, initLookups: map[string]map[string][]string{}, loaderHands: map[string]*simrt.Handle{}}
 	syslog.SetLogger(simrt.SilentLogger{})
 	simrt.FormatLogs = spec.Parallel
 
@@ -708,6 +710,25 @@ func (e *env) main(inClose, closeReturned *bool) {
 			}
 		}
 	}
+	// scalar configuration fields the application has given a value before Run
+	for _, inst := range p.Instances {
+		t := p.TypeByName(inst.Type)
+		if !inst.PresetCfg || t.Zero || t.Local {
+			continue
+		}
+		for _, cf := range t.Config {
+			f := fieldAt(e.objs[inst.ID], t.Name, cf.Embed, cf.Field)
+			if !f.IsValid() || !f.CanSet() || cf.Anon {
+				continue
+			}
+			switch {
+			case cf.GoType == "int" && f.Kind() == reflect.Int:
+				f.SetInt(model.PresetInt)
+			case cf.GoType == "string" && f.Kind() == reflect.String:
+				f.SetString(model.PresetStr)
+			}
+		}
+	}
 	// hand-wired points: the application has set them to the raw target before Run
 	{
 		w := model.NewWorld(p, EffectiveCfg(p))
@@ -929,6 +950,13 @@ func (e *env) main(inClose, closeReturned *bool) {
 					}
 				}()
 				a.Configure.AddLoaders(late...)
+				// loaders whose order is settled late answer with it from now on (all sources are
+				// registered by now; the configuration has not been initialised again yet)
+				for _, s := range p.Sources {
+					if h := e.loaderHands[s.ID]; h != nil && s.Order2 != nil {
+						h.Ord = *s.Order2
+					}
+				}
 				if err := a.Configure.Initialize(); err != nil {
 					obs.ReloadErr = firstLine(err.Error())
 				}
@@ -987,6 +1015,21 @@ func (e *env) main(inClose, closeReturned *bool) {
 		}
 		f := fieldAt(e.objs[inst.ID], t.Name, t.LogEmbed, "Log")
 		obs.LoggerSet[inst.ID] = f.IsValid() && !f.IsNil()
+		if t.Logger2 != "" {
+			prefOf := func(v reflect.Value) string {
+				if v.IsValid() && !v.IsNil() {
+					if l, ok := v.Interface().(simrt.SilentLogger); ok {
+						return l.P
+					}
+					return "?" + v.Elem().Type().String()
+				}
+				return "<nil>"
+			}
+			if obs.LoggerPref == nil {
+				obs.LoggerPref = map[string][2]string{}
+			}
+			obs.LoggerPref[inst.ID] = [2]string{prefOf(f), prefOf(fieldAt(e.objs[inst.ID], t.Name, t.LogEmbed, "Log2"))}
+		}
 	}
 	if obs.Panic == "" && !obs.RunErr && spec.Lookups && e.bind.Ifaces != nil && !ctx.OverBudget {
 		// lookups by interface through the factory's query API
